@@ -249,8 +249,27 @@ def run(ctx) -> None:
         if not puts and (none_true or inst_true):
             ok, msg = False, f"event dropped although the filter accepts it: {p.sig()}"
     # the isinstance test must be over the event and the filter's members
-    src = ast.unparse(qfi.node)
-    shape = "isinstance(event, cls) for cls in self._event_filter" in src or ("isinstance(" in src and "_event_filter" in src)
+    # (argument roles are decided on the tree: the first argument is the event parameter, the second ranges over the filter)
+    params = [a.arg for a in qfi.node.args.args if a.arg != "self"]
+    evparam = params[0] if params else "event"
+    shape = False
+    for n in ast.walk(qfi.node):
+        if isinstance(n, ast.Call) and isinstance(n.func, ast.Name) and n.func.id == "isinstance" and len(n.args) == 2:
+            first_ok = isinstance(n.args[0], ast.Name) and n.args[0].id == evparam
+            second = n.args[1]
+            second_ok = False
+            if isinstance(second, ast.Call) and ast.unparse(second.func) == "tuple" and second.args and ast.unparse(second.args[0]).endswith("_event_filter"):
+                second_ok = True
+            elif isinstance(second, ast.Name):
+                for g in ast.walk(qfi.node):
+                    if isinstance(g, ast.comprehension) and isinstance(g.target, ast.Name) and g.target.id == second.id and ast.unparse(g.iter).endswith("_event_filter"):
+                        second_ok = True
+                    if isinstance(g, ast.For) and isinstance(g.target, ast.Name) and g.target.id == second.id and ast.unparse(g.iter).endswith("_event_filter"):
+                        second_ok = True
+            if first_ok and second_ok:
+                shape = True
+            else:
+                ok, msg = False, f"isinstance test with the wrong roles: {ast.unparse(n)} (expected isinstance(<event>, <member of the filter>))"
     ctx.check(ok and shape and nput >= 1, RQ, "EventEmitter.queue_event", msg or "queue_event does not filter by isinstance over the filter's members", qfi.loc)
     ctx.count("functions", 4)
     ctx.assumptions += [
@@ -269,6 +288,8 @@ VARIANTS = [
     dict(name="B base classes select nothing (pre-fix)", expect="fire", rule="C11/mask-covers-need", edits=[(IN, "for cls in {c for c in concrete_classes for f in self._event_filter if issubclass(c, f)}:", "for cls in self._event_filter:")]),
     dict(name="B delete-self dropped", expect="fire", rule="C11/mask-covers-bookkeeping", edits=[(IN, "        event_mask = InotifyConstants.IN_DELETE_SELF\n", "        event_mask = 0\n")]),
     dict(name="B queue-time filter removed", expect="fire", rule="C11/filter-at-queue-time", edits=[("observers/api.py", "        if self._event_filter is None or any(isinstance(event, cls) for cls in self._event_filter):\n            self._event_queue.put((event, self.watch))", "        self._event_queue.put((event, self.watch))")]),
+    dict(name="B isinstance arguments swapped", expect="fire", rule="C11/filter-at-queue-time", edits=[("observers/api.py", "isinstance(event, cls) for cls in self._event_filter", "isinstance(cls, event) for cls in self._event_filter")]),
+    dict(name="E isinstance over a tuple of the filter", expect="silent", edits=[("observers/api.py", "any(isinstance(event, cls) for cls in self._event_filter)", "isinstance(event, tuple(self._event_filter))")]),
     dict(name="B filtered watch falls back to a mask for None", expect="fire", rule="C11/unfiltered-mask", edits=[(IN, "        if self._event_filter is None:\n            return None\n", "        if self._event_filter is None:\n            return InotifyConstants.IN_DELETE_SELF\n")]),
     dict(name="E reorder the elif arms", expect="silent", edits=[(IN, "            elif cls is FileClosedEvent:\n                event_mask |= InotifyConstants.IN_CLOSE_WRITE\n            elif cls is FileClosedNoWriteEvent:\n                event_mask |= InotifyConstants.IN_CLOSE_NOWRITE", "            elif cls is FileClosedNoWriteEvent:\n                event_mask |= InotifyConstants.IN_CLOSE_NOWRITE\n            elif cls is FileClosedEvent:\n                event_mask |= InotifyConstants.IN_CLOSE_WRITE")]),
     dict(name="E masks named in locals", expect="silent", edits=[(IN, "            elif cls is FileModifiedEvent:\n                event_mask |= InotifyConstants.IN_ATTRIB | InotifyConstants.IN_MODIFY", "            elif cls is FileModifiedEvent:\n                content = InotifyConstants.IN_ATTRIB | InotifyConstants.IN_MODIFY\n                event_mask |= content")]),
